@@ -4,7 +4,8 @@ import json, sys
 from pathlib import Path
 ROOT = Path(__file__).resolve().parent.parent
 BASE = "cd /repo && /venv/bin/python -m pytest -ra -q -p no:cacheprovider --timeout=900 --continue-on-collection-errors"
-TECH = "contract-based deductive verification: VCs generated from the real AST by /verif/pyvc, discharged by z3 (cvc5 on unknown)"
+TECH = ("contract-based deductive verification: VCs generated from the real AST by /verif/pyvc, discharged by z3 (cvc5 on unknown); "
+        "a bounded native search (replay/*.py, labelled bounded) only replays counter-models and stands in when a proof is undecided")
 CHECKS = {}
 NA = {}
 
@@ -45,7 +46,9 @@ m = {
                  "kind_free_text": "symbolic executor with contracts over the real Python AST; z3 5.1 / cvc5 back ends"}],
     "checks": checks,
     "not_applicable": na,
-    "notes": "Sidecar contracts in /verif/contracts; known findings in /verif/known_findings.json; self-mutation lists in /verif/mutations.",
+    "notes": ("Sidecar contracts in /verif/contracts; known findings in /verif/known_findings.json; self-mutation lists in /verif/mutations; "
+              "84 seeded breaking changes in /verif/seeded and 12 behaviour-preserving refactorings in /verif/refactorings "
+              "(tools/recheck_seeds.sh replays them against the current machinery; results in seeded/RECHECK.txt)."),
 }
 (ROOT / "MANIFEST.json").write_text(json.dumps(m, indent=1) + "\n")
 print("claimed", sorted(CHECKS), "na", [x["property_id"] for x in na])
